@@ -39,6 +39,28 @@ Theorem C10_limit_plain :
     fits d full -> impl_limit d full [] n = Good (pyslice None (Some n) full).
 Proof. exact (@limit_is_prefix). Qed.
 
+(* The constructor form Cls.select(limit=k), k >= 0 (also k = 0: an empty result), followed by any chain: the same
+   chain on the first k rows -- i.e. select(limit=k) is select()[:k] on every later path.  (A negative k is outside:
+   the constructor hands it to the database as it is.) *)
+Theorem C10_ctor_limit_chain :
+  forall (A : Type) (d : dialect) (full : list A) (k : Z) (chain : list (option Z * option Z)),
+    fits d full -> 0 <= k ->
+    impl_list_from d full (Some k) chain = Good (spec_list (pyslice None (Some k) full) chain).
+Proof. exact (@ctor_chain_list). Qed.
+
+Theorem C10_ctor_limit_index :
+  forall (A : Type) (d : dialect) (full : list A) (k : Z) chain (i : Z),
+    fits d full -> 0 <= k ->
+    impl_index_from d full (Some k) chain i = spec_index (pyslice None (Some k) full) chain i.
+Proof. exact (@ctor_chain_index). Qed.
+
+Theorem C10_ctor_limit_limit :
+  forall (A : Type) (d : dialect) (full : list A) (k : Z) chain (n : Z) x,
+    fits d full -> 0 <= k ->
+    run_chain d full (SWin (VInt 0) (VInt k)) chain = Good x -> still_select x ->
+    impl_limit_from d full (Some k) chain n = Good (pyslice None (Some n) (spec_list (pyslice None (Some k) full) chain)).
+Proof. exact (@ctor_chain_limit). Qed.
+
 (* non-vacuity: the hypotheses hold on concrete non-trivial states, and the
    model computes non-trivial answers there *)
 Example C10_fits_nonvacuous : fits Mysql [10; 20; 30; 40; 50].
@@ -59,7 +81,16 @@ Example C10_limit_hyp_nonvacuous :
   exists x, run_chain Sqlite [10; 20; 30] (SWin (VInt 0) VNone) [(Some 1, Some 2)] = Good x /\ still_select x.
 Proof. eexists. split; [vm_compute; reflexivity | exact I]. Qed.
 
+Example C10_example_ctor_limit :
+  impl_list_from Sqlite [10; 20; 30; 40; 50; 60] (Some 3) [(Some 1, None)] = Good [20; 30] /\
+  impl_list_from Mysql [10; 20; 30] (Some 0) [] = Good [] /\
+  impl_index_from Postgres [10; 20; 30; 40] (Some 2) [] 2 = PyErr E_Index.
+Proof. vm_compute. auto. Qed.
+
 Print Assumptions C10_chain.
+Print Assumptions C10_ctor_limit_chain.
+Print Assumptions C10_ctor_limit_index.
+Print Assumptions C10_ctor_limit_limit.
 Print Assumptions C10_index.
 Print Assumptions C10_limit.
 Print Assumptions C10_limit_plain.
